@@ -113,8 +113,9 @@ theorem Frame.mk' (c : Conn) (ph : Phase) (t : Transport) (h : TStep c.env.tr t)
 
 /-- The connection is inside `parse_request`; the request parser was handed the bytes `F` of the
 wire `W0` so far; `L0` was in the write log when this `parse_request` started. -/
-structure PSt (cap mc : Nat) (W0 L0 : Bytes) (c : Conn) (F : Bytes) : Prop where
-  wire : F ++ c.env.tr.input <+: W0
+structure PSt (cap mc : Nat) (W0 L0 Z : Bytes) (c : Conn) (F : Bytes) : Prop where
+  /-- `Z`: the part of the wire that has not reached the transport (yet) -/
+  wire : F ++ c.env.tr.input ++ Z = W0
   stop : c.stop = false
   ben : Ben c.env.tr
   rem : (run .header F mc).rem.length ≤ cap
@@ -130,20 +131,20 @@ def wbit (c : Conn) : Nat :=
   | _ => 0
 
 /-- How a poll that is inside `parse_request` goes on. -/
-def POut (cap mc : Nat) (W0 L0 : Bytes) (c1 : Conn) (F1 : Bytes) : Prop :=
-  (∃ c2, stepConn c1 = .halt c2 .pending ∧ PSt cap mc W0 L0 c2 F1 ∧ Frame c1 c2 ∧
+def POut (cap mc : Nat) (W0 L0 Z : Bytes) (c1 : Conn) (F1 : Bytes) : Prop :=
+  (∃ c2, stepConn c1 = .halt c2 .pending ∧ PSt cap mc W0 L0 Z c2 F1 ∧ Frame c1 c2 ∧
       c2.env.tr.woken = true ∧ ans c2.env.tr < ans c1.env.tr) ∨
   (∃ rest t', c1.phase = .parseReq (track cap mc F1) (.writing rest true) ∧
-      (run .header F1 mc).st.isFinal = true ∧ F1 ++ c1.env.tr.input <+: W0 ∧ c1.stop = false ∧
-      Ben c1.env.tr ∧
+      (run .header F1 mc).st.isFinal = true ∧ F1 ++ c1.env.tr.input ++ Z = W0 ∧ c1.stop = false ∧
+      Ben c1.env.tr ∧ (run .header F1 mc).rem.length ≤ cap ∧
       writeAllLoop (rest.length + 1) rest c1.env.tr = ([], t', .ready) ∧
       t'.wlog = L0 ++ (run .header F1 mc).out ∧ TStep c1.env.tr t' ∧ t'.input = c1.env.tr.input) ∨
   (c1.env.tr.input = [] ∧ (run .header F1 mc).st.isFinal = false ∧
-      c1.phase = .parseReq (track cap mc F1) .reading ∧ PSt cap mc W0 L0 c1 F1)
+      c1.phase = .parseReq (track cap mc F1) .reading ∧ PSt cap mc W0 L0 Z c1 F1)
 
-theorem parse_loop {cap mc : Nat} {W0 L0 : Bytes} (h24 : 24 ≤ cap) (hns : NoStuckW cap mc W0) :
-    ∀ (M : Nat) (c : Conn) (F : Bytes), PSt cap mc W0 L0 c F → 2 * c.env.tr.input.length + wbit c ≤ M →
-      ∃ n c1 F1, n ≤ M + 1 ∧ Steps n c c1 ∧ Frame c c1 ∧ POut cap mc W0 L0 c1 F1 := by
+theorem parse_loop {cap mc : Nat} {W0 L0 Z : Bytes} (h24 : 24 ≤ cap) (hns : NoStuckW cap mc W0) :
+    ∀ (M : Nat) (c : Conn) (F : Bytes), PSt cap mc W0 L0 Z c F → 2 * c.env.tr.input.length + wbit c ≤ M →
+      ∃ n c1 F1, n ≤ M + 1 ∧ Steps n c c1 ∧ Frame c c1 ∧ POut cap mc W0 L0 Z c1 F1 := by
   intro M
   induction M using Nat.strongRecOn with
   | _ M ih =>
@@ -155,7 +156,7 @@ theorem parse_loop {cap mc : Nat} {W0 L0 : Bytes} (h24 : 24 ≤ cap) (hns : NoSt
       · exact ⟨0, c, F, by omega, .refl _, .refl _,
           Or.inr (Or.inr ⟨hin, hnf, hphase, ⟨hwire, hstop, hben, hrem, Or.inl ⟨hphase, hnf, hlog⟩⟩⟩)⟩
       · have hfreepos : 0 < (track cap mc F).free := by
-          have hFpre : F <+: W0 := (List.prefix_append _ _).trans hwire
+          have hFpre : F <+: W0 := ⟨c.env.tr.input ++ Z, by rw [← List.append_assoc]; exact hwire⟩
           rcases hns F hFpre with h | h
           · rw [hnf] at h; cases h
           · simp only [track, Req.Parser.free]; omega
@@ -183,9 +184,9 @@ theorem parse_loop {cap mc : Nat} {W0 L0 : Bytes} (h24 : 24 ≤ cap) (hns : NoSt
               · omega
               · exact hin hz.1
             have hpre2 : F ++ bs <+: W0 := by
-              refine List.IsPrefix.trans ?_ hwire
-              rw [hinp, ← List.append_assoc]
-              exact List.prefix_append _ _
+              refine ⟨t.input ++ Z, ?_⟩
+              rw [← hwire, hinp]
+              simp only [List.append_assoc]
             obtain ⟨o, hpar, hout⟩ := parse_track h24 hrem hbne hlen (hns _ hpre2)
             have hstep' : stepConn c = .next { c with
                 phase := .parseReq (track cap mc (F ++ bs)) (.writing o (run .header (F ++ bs) mc).st.isFinal),
@@ -208,12 +209,12 @@ theorem parse_loop {cap mc : Nat} {W0 L0 : Bytes} (h24 : 24 ≤ cap) (hns : NoSt
               have : 0 < bs.length := List.length_pos_iff.mpr hbne
               simp only [List.length_append] at *
               omega
-            have hst' : PSt cap mc W0 L0 { c with
+            have hst' : PSt cap mc W0 L0 Z { c with
                 phase := .parseReq (track cap mc (F ++ bs)) (.writing o (run .header (F ++ bs) mc).st.isFinal),
                 env := { c.env with tr := t } } (F ++ bs) := by
               refine ⟨?_, hstop, hben.step hts, hrem', Or.inr ⟨o, rfl, ?_⟩⟩
-              · show (F ++ bs) ++ t.input <+: W0
-                rw [List.append_assoc, ← hinp]; exact hwire
+              · show (F ++ bs) ++ t.input ++ Z = W0
+                rw [List.append_assoc F, ← hinp]; exact hwire
               · show t.wlog ++ o = _
                 rw [hwl, hlog, hout, List.append_assoc]
             obtain ⟨n, c1, F1, hn, hs, hfr, hout'⟩ := ih (2 * t.input.length + 1) (by
@@ -231,12 +232,12 @@ theorem parse_loop {cap mc : Nat} {W0 L0 : Bytes} (h24 : 24 ≤ cap) (hns : NoSt
         cases hfin : (run .header F mc).st.isFinal with
         | true =>
           rw [hfin] at hphase
-          exact ⟨0, c, F, by omega, .refl _, .refl _, Or.inr (Or.inl ⟨rest, t', hphase, hfin, hwire, hstop, hben, hwa,
+          exact ⟨0, c, F, by omega, .refl _, .refl _, Or.inr (Or.inl ⟨rest, t', hphase, hfin, hwire, hstop, hben, hrem, hwa,
             by rw [hl, hlog], hts, hinp⟩)⟩
         | false =>
           rw [hfin] at hphase
           have hstep := step_writing_more c _ rest [] t' hphase hstop hwa
-          have hst' : PSt cap mc W0 L0
+          have hst' : PSt cap mc W0 L0 Z
               { c with phase := .parseReq (track cap mc F) .reading, env := { c.env with tr := t' } } F :=
             ⟨by simpa [hinp] using hwire, hstop, hben.step hts, hrem,
               Or.inl ⟨rfl, hfin, by show t'.wlog = _; rw [hl, hlog]⟩⟩
